@@ -21,7 +21,10 @@ Monitors (all observe at the boundary):
     the estimate, every fixed one its declared value.
 Non-convergence is recorded, never a violation. Every estimation runs in its own forked
 child (sticky engine error flag). Two hand-made directed cases reproduce the recorded
-findings at every run (see findings/C07.md).
+findings at every run (see findings/C07.md); one of them is a fault injection (the
+analytical Hessian of the final evaluation is made non-finite). The thorough tier also
+runs 13 files of the repository's own test-suite with the model-independent part of the
+post-condition attached to BIOGEME.estimate/quick_estimate (oracle/c07_pytest_plugin.py).
 """
 from __future__ import annotations
 
@@ -40,7 +43,9 @@ RULE = (
     'second_derivatives, iteration limit, save_iterations); every case runs all 8 table algorithms + automatic through '
     'estimate() and a rotating third through quick_estimate(). A run is non-trivial when the oracle certified a unique '
     'finite maximum (KKT residual <= 1e-10 of the gradient scale, Hessian condition < 1e7) and the estimation returned a '
-    'results object; distinct = hash(problem, bounds, start, options, algorithm, entry point)'
+    'results object; distinct = hash(problem, bounds, start, options, algorithm, entry point). 3 hand-made directed cases '
+    '(finding reproductions, one with fault injection) are added at every run; thorough adds every estimate()/quick_estimate() '
+    'call made by 13 files of the repository\'s own tests, judged by the model-independent contracts (distinct = test, call index)'
 )
 ASSUMPTIONS = [
     'numpy float64 closed forms of the logit / normal log likelihood and of their gradient, Hessian and BHHH '
@@ -702,7 +707,8 @@ def finalize(cov, tier):
 # ---------------------------------------------------------------------------------------
 REPO_TEST_FILES = ['functions/test_biogeme.py', 'functions/test_results.py', 'functions/test_optimization.py',
                    'swissmetro/test_01.py', 'swissmetro/test_02.py', 'swissmetro/test_03.py', 'swissmetro/test_04.py',
-                   'swissmetro/test_09.py']
+                   'swissmetro/test_08.py', 'swissmetro/test_09.py', 'swissmetro/test_10.py', 'swissmetro/test_18.py', 'swissmetro/test_21.py',
+                   'optima/test_01.py']
 REPO_TEST_TIMEOUT = 900
 
 
